@@ -274,6 +274,11 @@ func CompareBytes(a, b []byte) (int, error) {
 				return 0, err
 			}
 			b1 := binary.LittleEndian.Uint64(bs)
+			if kindA == KindInt || kindA == KindInt64 {
+				// signed: flip the sign bit so that unsigned order is two's complement order
+				a1 ^= 1 << 63
+				b1 ^= 1 << 63
+			}
 			if a1 < b1 {
 				return -1, nil
 			} else if a1 > b1 {
@@ -291,6 +296,10 @@ func CompareBytes(a, b []byte) (int, error) {
 				return 0, err
 			}
 			b1 := bs[0]
+			if kindA == KindInt8 {
+				a1 ^= 1 << 7
+				b1 ^= 1 << 7
+			}
 			if a1 < b1 {
 				return -1, nil
 			} else if a1 > b1 {
@@ -308,6 +317,10 @@ func CompareBytes(a, b []byte) (int, error) {
 				return 0, err
 			}
 			b1 := binary.LittleEndian.Uint16(bs)
+			if kindA == KindInt16 {
+				a1 ^= 1 << 15
+				b1 ^= 1 << 15
+			}
 			if a1 < b1 {
 				return -1, nil
 			} else if a1 > b1 {
@@ -325,6 +338,10 @@ func CompareBytes(a, b []byte) (int, error) {
 				return 0, err
 			}
 			b1 := binary.LittleEndian.Uint32(bs)
+			if kindA == KindInt32 {
+				a1 ^= 1 << 31
+				b1 ^= 1 << 31
+			}
 			if a1 < b1 {
 				return -1, nil
 			} else if a1 > b1 {
@@ -365,7 +382,7 @@ func CompareBytes(a, b []byte) (int, error) {
 				return 1, nil
 			}
 
-		case KindString, KindBytes, KindTypeName, KindLiteral:
+		case KindString, KindBytes, KindTypeName, KindLiteral, KindRef:
 			var l1 int
 			bs, err := readA(1)
 			if err != nil {
